@@ -179,7 +179,7 @@ def fault_phase(ck, outcomes):
             ini = os.path.join(w, 'snoopy.ini')
             open(ini, 'w').write(cfgtext.replace('@W@', w))
             res = os.path.join(w, 'res.json')
-            rep = X.run(sx, w, [v['h_one'], ini, res, '0', '3', os.path.join(w, 'devlog')], opts=list(opts) + ['--calltimeout', '3000', '--totaltimeout', '8000'], timeout=40)
+            rep = X.run(sx, w, [v['h_one'], ini, res, '0', '3', os.path.join(w, 'devlog')], opts=list(opts) + ['--skipalloc', '--calltimeout', '3000', '--totaltimeout', '8000'], timeout=40)
             try:
                 rep['result'] = json.load(open(res))
             except Exception:
@@ -207,8 +207,8 @@ def fault_phase(ck, outcomes):
     for (k, c, dev), rep in zip(jobs, res):
         n += 1
         r = rep.get('result')
-        if not r:
-            continue      # crashes/hangs under faults are C03's business
+        if not r or rep.get('diverged'):
+            continue      # crashes/hangs under faults are C03's business; a diverged replay is not a verdict
         bad = []
         if r['fd_table_changed'][1]:
             bad.append('descriptor_table_changed_by_faulted_call')
